@@ -63,6 +63,9 @@ class Ctx:
         return d
 
     def cleanup(self):
+        if os.environ.get("VERIF_KEEP_SCRATCH"):      # debugging aid only
+            print("[verif] scratch kept: " + self.scratch)
+            return
         shutil.rmtree(self.scratch, ignore_errors=True)
 
     def add_tlc(self, res, label=None):
